@@ -342,7 +342,8 @@ func init() {
 	register(&vf.Check{
 		ID:        "C01",
 		Technique: "runtime monitor: shadow ledger of every asynchronous operation (recorded before the call, completed inside the wrapped callback) + poll(2) readiness oracle on logical poll cycles + bounded quiescence, over random scripts on real sockets/FIFOs whose peer ends are raw descriptors driven by the loop goroutine",
-		Rule: "cases = scripts of 10-60 steps over 2-6 objects from {dialed TCP conn, accepted TCP conn, AsyncAdapter over net.TCPConn, FIFO read end, FIFO write end, regular file, UDP packet conn, connected UDP conn (Dial \"udp\"), listener} sharing one IO: start read/readAll/write/writeAll/accept/readFrom/writeTo (inline or forced to the deferred path by presetting IO.Dispatched), peer writes/drains/half-closes/closes/RSTs/hangs up/connects (1-4 actions before each PollOne so batches hold several ready descriptors), Cancel, Close, handlers that re-issue, cancel/close/cancel-and-re-arm/drain (non-blocking reads on the other object's descriptor) another object or cancel/close themselves; one script in three opens with a constructed batch (victim with a deferred read and a write registered at the dispatch limit + another object whose handler acts on it, both ready in one batch, either order); a completion carrying ErrWouldBlock is a violation; each script ends by making every remaining operation completable and polling up to 64 cycles; " +
+		Rule: "peers of datagram objects also send bursts of 20-60 small datagrams (read-alls that take dozens of successful short reads); " +
+			"cases = scripts of 10-60 steps over 2-6 objects from {dialed TCP conn, accepted TCP conn, AsyncAdapter over net.TCPConn, FIFO read end, FIFO write end, regular file, UDP packet conn, connected UDP conn (Dial \"udp\"), listener} sharing one IO: start read/readAll/write/writeAll/accept/readFrom/writeTo (inline or forced to the deferred path by presetting IO.Dispatched), peer writes/drains/half-closes/closes/RSTs/hangs up/connects (1-4 actions before each PollOne so batches hold several ready descriptors), Cancel, Close, handlers that re-issue, cancel/close/cancel-and-re-arm/drain (non-blocking reads on the other object's descriptor) another object or cancel/close themselves; one script in three opens with a constructed batch (victim with a deferred read and a write registered at the dispatch limit + another object whose handler acts on it, both ready in one batch, either order); a completion carrying ErrWouldBlock is a violation; each script ends by making every remaining operation completable and polling up to 64 cycles; " +
 			"non-trivial = a batch with >= 2 ready objects, a stale batch entry, or a completion through Cancel; distinct = (object kinds, counts of such batches and completion paths)",
 		Assumptions: []string{
 			"one read and one write in flight per object (the API's contract); generators respect it",
